@@ -14,7 +14,7 @@ import (
 
 func init() {
 	Registry["C01"] = Set{
-		Explanation: "Decides the state-word protocol that serialises callbacks, for the process word and the meta-process word, on every transition site and every callback invocation site of the current source: P1 the word becomes Running only by compare-and-swap from Sleep (or back from WaitResponse inside the function that entered it); P2 it becomes Sleep only by the runner's own CAS or by the initial store that precedes publication; P3 every ProcessRun / HandleMessage / HandleCall / HandleInspect invocation is reached only while the executing goroutine holds the token (typestate over the SSA control-flow graph with edge effects of CAS/Swap results), and the runner goroutine is started only on the success edge of the acquisition; P5 every teardown call (unregister, ProcessTerminate / Terminate) is reached only as the single elected finaliser — swap to Terminated with the old value tested — and an outsider (Kill, meta start) may finalise only when the old state excludes a live runner (enum value sets refined along switch/if edges); P6 the wait transitions of a process are not reachable from methods of its meta processes (foreign goroutines). Together these are the mutual-exclusion argument for callbacks; each is necessary.",
+		Explanation: "Decides the state-word protocol that serialises callbacks, for the process word and the meta-process word, on every transition site and every callback invocation site of the current source: P1 the word becomes Running only by compare-and-swap from Sleep (or back from WaitResponse inside the function that entered it); P2 it becomes Sleep only by the runner's own CAS or by the initial store that precedes publication; P3 every ProcessRun / HandleMessage / HandleCall / HandleInspect invocation is reached only while the executing goroutine holds the token (typestate over the SSA control-flow graph with edge effects of CAS/Swap results), and the runner goroutine is started only on the success edge of the acquisition; P5 every teardown call (unregister, ProcessTerminate / Terminate) is reached only as the single elected finaliser — swap to Terminated with the old value tested — and an outsider (Kill, meta start) may finalise only when the old state excludes a live runner (enum value sets refined along switch/if edges); P6 the wait transitions of a process are not reachable from methods of its meta processes (foreign goroutines). Together these are the mutual-exclusion argument for callbacks; each is necessary. Added while probing: P7 every ProcessBehavior callback of the act behaviours runs only below ProcessRun/ProcessInit/ProcessTerminate (call-graph rule), so P3 extends to user handlers.",
 		NotDecided: []string{
 			"that user behaviours do not invoke their own callbacks from goroutines they start",
 			"goroutine fairness / progress",
